@@ -171,3 +171,25 @@ def abi_boundary(w, h, d, bc):
         if (a["w"], a["h"], a["d"]) != (w, h, d) or (a["bcx"], a["bcy"], a["bcz"]) != (want["x"], want["y"], want["z"]):
             return False
     return True
+
+
+def bc_switch(w, h, d, bc1, bc2, i):
+    """the neighbour relation follows the CURRENT boundary setting: a grid queried under one setting and then switched to another
+    (in place, or on a copy) answers like a grid built with the new setting"""
+    def full(bc):
+        return {a: BCS[bc].get(a, "reflecting") for a in "xyz"}
+    n = w * h * d
+    g = RDGridSpace(w=w, h=h, d=d, cell_env=0, cell_vol=8, boundary_conditions=dict(BCS[bc1]))
+    g.get_neighbors(i)
+    [g.are_neighbors(i, j) for j in range(n) if j != i]
+    c = g.copy()
+    g.set_boundary_conditions(full(bc2))
+    c.set_boundary_conditions(full(bc2))
+    for sp in (g, c):
+        for k in range(n):
+            want = [j for j in range(n) if spec_neighbors(w, h, d, bc2, k, j)]
+            if sorted(set(sp.get_neighbors(k))) != want:
+                return False
+            if any(sp.are_neighbors(k, j) != spec_neighbors(w, h, d, bc2, k, j) for j in range(n) if j != k):
+                return False
+    return True
